@@ -5,10 +5,14 @@ EXTENDS RuleReuse, Json
 \* parameters equal X's; N1, N2: other rules with different statistic parameters
 MCToks  == {"X", "Xm", "S1", "N1"}
 MCToks3 == {"X", "S1", "N1"}
+\* Xe: X with the defaults of its unset optional fields spelled out (a different rule for the statement)
+MCToksD == {"X", "Xe", "S1", "N1"}
+MCAll   == {"X", "Xe", "Xm", "S1", "S2", "N1", "N2"}
+MCNorm  == [t \in MCAll |-> IF t = "X" THEN "Xe" ELSE t]
 MCToks6 == {"X", "Xm", "S1", "S2", "N1", "N2"}
-MCStat  == [t \in MCToks6 |-> CASE t \in {"X", "Xm", "S1", "S2"} -> "sx" [] t = "N1" -> "n1" [] t = "N2" -> "n2"]
+MCStat  == [t \in MCAll |-> CASE t \in {"X", "Xe", "Xm", "S1", "S2"} -> "sx" [] t = "N1" -> "n1" [] t = "N2" -> "n2"]
 \* a watched rule that keeps no statistics (pacing): nothing is stat-compatible with it
-MCStatNone == [t \in MCToks6 |-> CASE t \in {"X", "Xm"} -> "none" [] t \in {"S1", "S2"} -> "s" [] t = "N1" -> "n1" [] t = "N2" -> "n2"]
+MCStatNone == [t \in MCAll |-> CASE t \in {"X", "Xe", "Xm"} -> "none" [] t \in {"S1", "S2"} -> "s" [] t = "N1" -> "n1" [] t = "N2" -> "n2"]
 \* one line per reload transition: the shape (old list, new list)
-EmitShape == (Len(h') > 0 /\ h'[Len(h')].op = "reload") => PrintT(ToJson(<<h'[Len(h')].old, h'[Len(h')].new>>))
+EmitShape == (Len(h') > 0 /\ h'[Len(h')].op = "reload") => PrintT(ToJson(<<h'[Len(h')].path, h'[Len(h')].old, h'[Len(h')].new>>))
 =============================================================================
